@@ -297,7 +297,7 @@ def canon_rec(rec):
         pos = tuple(rec.pos)
     else:
         pos = tuple(canon_field(dt, s) for (_, dt), s in zip(table, rec.pos))
-    tags = frozenset((n, t, canon_tag_value(t, v)) for n, t, v in rec.tags)
+    tags = tuple(sorted(((n, t, canon_tag_value(t, v)) for n, t, v in rec.tags), key=repr))
     return (rec.rt, pos, tags)
 
 
@@ -343,7 +343,7 @@ def canon_doc(text, version):
         rec = split_line(line, version)
         if rec.rt == "H":
             for n, t, v in rec.tags:
-                c = ("H", (), frozenset([(n, t, canon_tag_value(t, v))]))
+                c = ("H", (), ((n, t, canon_tag_value(t, v)),))
                 if n in ("VN", "TS"):
                     if n in single:
                         continue
